@@ -350,10 +350,11 @@ def c14_monitor(s, a, rt):
             continue
         i = int(R[1])
         op = s.ops[i]
-        if op[0] != "send" or any(l.startswith("S ") for l in entries):
+        if op[0] != "send" or (any(l.startswith("S ") for l in entries) and not s.rtc):
             continue
         kv = dict(p.split("=", 1) for p in R if "=" in p)
         tid = kv["tid"]
+        # (run-to-completion: chained events run after the event's own block; their returns carry other ids)
         fired = any(l.startswith("T ") for l in entries)
         bef = [l.split(" ", 4)[4] for l in entries if l.startswith(f"E {tid} before ")]
         on = [l.split(" ", 4)[4] for l in entries if l.startswith(f"E {tid} on ")]
@@ -581,6 +582,11 @@ def c11_monitor(s, a, rt):
         i = int(R[1])
         op = s.ops[i]
         kv = dict(p.split("=", 1) for p in R if "=" in p)
+        if op[0] == "write":      # somebody else stored a state: nothing is pending any more
+            cur = kv["cur"]
+            if cur != "-":
+                pending_initial = False
+            continue
         if op[0] in ("construct", "reconstruct"):
             if cur != "-":
                 if entries:
